@@ -488,7 +488,7 @@ def cell_store_loops(ctx, sr):
             st = sg['st']
             pre, lev = seg_events(dict(sg, kind='backedge'))
             d = loop_desc_in(pre + lev[:0], func, head) or loop_desc_in(st.event_list(), func, head)
-            if d is None or d[4] or not (isinstance(d[1], NumV) and isinstance(d[2], NumV)):
+            if d is None or not elementwise(d[4]) or not (isinstance(d[1], NumV) and isinstance(d[2], NumV)):
                 ok = False
                 break
             hit = False
@@ -499,7 +499,7 @@ def cell_store_loops(ctx, sr):
                 if not (isinstance(col, NumV) and col.sym is not None and col.k == 0):
                     continue
                 it = st.vn.get(('itersym', col.sym))
-                if not (isinstance(it, IterV) and it.kind == 'range' and not it.ops and isinstance(it.args[0], NumV) and isinstance(it.args[1], NumV)):
+                if not (isinstance(it, IterV) and it.kind == 'range' and elementwise(tuple(o[0] for o in it.ops)) and isinstance(it.args[0], NumV) and isinstance(it.args[1], NumV)):
                     continue
                 if (it.args[0].key(), it.args[1].key(), bool(it.args[2])) != (d[1].key(), d[2].key(), bool(d[3])):
                     continue
@@ -522,9 +522,14 @@ def cell_store_loops(ctx, sr):
     return out
 
 
+def elementwise(opnames):
+    """adaptors that keep one output per source element, in order or reversed"""
+    return all(o in ('map', 'cloned', 'rev') for o in (opnames or ()))
+
+
 def range_covers(eng, st, d, lo_d, hi_d):
     """does the iterated range d = ('range', lo, hi, incl, ops) contain [lo_d, hi_d) (hi_d exclusive)"""
-    if d is None or d[4] or not (isinstance(d[1], NumV) and isinstance(d[2], NumV)):
+    if d is None or not elementwise(d[4]) or not (isinstance(d[1], NumV) and isinstance(d[2], NumV)):
         return False, 'not a plain range'
     lo, hi, incl = d[1], d[2], bool(d[3])
     ok1, w1 = plt.prove_rel(eng, st, 'le', lo, lambda s: lo_d(s) if callable(lo_d) else lo_d)
@@ -588,7 +593,8 @@ def r_dirty(ctx, chk, funcs, rule='R-DIRTY'):
             elif ev[0] in ('coll.clear', 'map.extend', 'coll.retain') and ev[1] and ev[1][0] == 'S' and len(ev[1]) >= 2 and ev[1][1] == 'buffer':
                 if ev[0] == 'coll.retain':
                     continue      # pruning outside the visible grid (checked by R-GRID / C16)
-                writes.append(('ALL', ev[0], ev[-2], ev[-1]))
+                r_ = row_of_path(ev[1]) if len(ev[1]) >= 3 else None
+                writes.append((r_ if isinstance(r_, NumV) else 'ALL', ev[0], ev[-2], ev[-1]))
         if not writes:
             continue
         marks = dirty_marks(ctx, sr, allev)
